@@ -905,6 +905,7 @@ pub fn gen_program(r: &mut Rng, o: &ProgOpts) -> Program {
         pull_params: None,
         pull_skip: 0,
         mixed_rows: if r.chance(1, 8) { 1 + r.below(3) as u8 } else { 0 },
+        ret_panic: false,
     }
 }
 
@@ -920,6 +921,7 @@ pub fn simple_ok_program() -> Program {
         pull_params: None,
         pull_skip: 0,
         mixed_rows: 0,
+        ret_panic: false,
     }
 }
 
